@@ -67,7 +67,7 @@ def translate(ll, cfile, narrow=0, extra=(), entries=()):
     return cfile
 
 
-CBMC_BASE = ['--unwinding-assertions', '--drop-unused-functions', '--no-standard-checks']
+CBMC_BASE = ['--unwinding-assertions', '--drop-unused-functions', '--no-standard-checks', '--object-bits', '12']
 
 
 def _limit(mem_gb):
